@@ -18,7 +18,7 @@ def tlc_layouts(rep, cfgs, label):
     wd = os.path.join(common.WORK, "layout", label)
     shutil.rmtree(wd, ignore_errors=True)
     os.makedirs(os.path.join(wd, "out"))
-    slim = [{k: v for k, v in c.items() if k not in ("calls", "units", "boxlen", "nout", "ordering", "sink", "bound_keys", "hist")} for c in cfgs]
+    slim = [{k: v for k, v in c.items() if k not in ("calls", "units", "boxlen", "nout", "ordering", "sink", "bound_keys", "hist", "levelmin")} for c in cfgs]
     with open(os.path.join(wd, "cfgs.json"), "w") as f:
         json.dump(slim, f)
     res = common.run_tlc("RamsesLayout", "RamsesLayout.cfg", env={"CFG_FILE": os.path.join(wd, "cfgs.json"), "OUT_DIR": os.path.join(wd, "out")},
@@ -413,7 +413,7 @@ def validate_read_traces(rep, cfgs, traces, label):
     """C -> S: recorded read logs validated by tla/TraceLayout.tla against the grammar of RamsesLayout"""
     wd = os.path.join(common.WORK, "layout", label + "-traces")
     os.makedirs(wd, exist_ok=True)
-    slim = [{k: v for k, v in c.items() if k not in ("calls", "units", "boxlen", "nout", "ordering", "sink", "bound_keys", "hist")} for c in cfgs]
+    slim = [{k: v for k, v in c.items() if k not in ("calls", "units", "boxlen", "nout", "ordering", "sink", "bound_keys", "hist", "levelmin")} for c in cfgs]
     with open(os.path.join(wd, "cfgs.json"), "w") as f:
         json.dump(slim, f)
     # negative control: the last trace is a copy of the first with one offset shifted by 4 bytes
